@@ -4,7 +4,7 @@
 # (SYMX_REPO), expects exit 1, and removes the worktree at the end. Evidence of these runs goes to a scratch directory.
 cd /verif
 NAMES="$@"; [ -z "$NAMES" ] && NAMES=$(ls seeded)
-W=/tmp/seedreg; T=$W/tree
+W=/tmp/seedreg; T=$W/tree.$$
 mkdir -p $W; git -C /repo worktree remove --force $T 2>/dev/null; git -C /repo worktree add -q --detach $T HEAD || exit 2
 for N in $NAMES; do
   ID=$(echo $N | cut -c1-3)
